@@ -4,6 +4,7 @@ from __future__ import annotations
 import ast
 
 from ..core import Ctx, RuleResult, rule
+from ..kit import own_nodes
 from ..model import UNKNOWN, AnalysisError, mangle, unparse
 from ..oblig import decide, global_sweep, select
 
@@ -301,4 +302,40 @@ def r03_11_trusted_instants(ctx: Ctx) -> RuleResult:
                 rr.fail(f.qual, f"`{unparse(c)[:70]}` hands the unvalidated constructor a duration whose day count is only known to be in {bad}, not inside [{MIN}, {MAX}]", ctx.loc(f, c))
             else:
                 rr.ok({"caller": f.qual, "site": unparse(c)[:60]})
+    return rr
+
+
+# ------------------------------------------------------------------------------------------- R03.13 scaling on the exact total
+
+SCALING_METHODS = {"__mul__", "__rmul__", "multiply", "__truediv__", "__floordiv__", "divide", "__neg__", "negate", "__abs__", "__pos__"}
+
+
+@rule("C03")
+def r03_13_scaling_uses_the_exact_total(ctx: Ctx) -> RuleResult:
+    """Scaling a Duration (x k, / k, negation) is exact and raises only when the *result* is out of range.  Each range-checked
+    factory (from_days, from_nanoseconds ...) validates what it is given, so a result assembled as `from_days(days * k) +
+    from_nanoseconds(nanos * k)` is validated piecewise: for a small negative duration (floor days -1, nanoseconds just below a day)
+    times a large k each piece is out of range although the product is tiny.  In the scaling operators no validated factory result
+    may be combined further with + / -: the factory is applied to the total."""
+    import re
+
+    from ..core import anchor_scope
+
+    rr = RuleResult("R03.13", "scaling operators of the elapsed-time types apply their range-checked factory to the exact total, never to partial products that are then added", min_instances=4)
+    M = ctx.M
+    files = anchor_scope(ctx, "C03")
+    for f in sorted(set(M.func_of_node.values()), key=lambda x: x.qual):
+        if isinstance(f.node, ast.Lambda) or f.mod.rel not in files or f.cls is None or f.name not in SCALING_METHODS:
+            continue
+        rr.inst()
+        bad = None
+        for n in own_nodes(f.node):
+            if isinstance(n, ast.BinOp) and isinstance(n.op, (ast.Add, ast.Sub)):
+                for side in (n.left, n.right):
+                    if isinstance(side, ast.Call) and isinstance(side.func, ast.Attribute) and re.match(r"_?from_", side.func.attr) and re.search(r"(Duration|Instant|Offset|self|cls)$", unparse(side.func.value)):
+                        bad = n
+        if bad is None:
+            rr.ok({"operator": f.qual})
+        else:
+            rr.fail(f.qual, f"`{unparse(bad)[:100]}` adds separately range-checked parts: a part can be out of range although the exact result is representable (or the reverse)", ctx.loc(f, bad))
     return rr
